@@ -917,10 +917,23 @@ package websocket
 // ---------------------------------------------------------------------------
 // server.go
 
+// RFC 6455 4.2.2: base64(SHA-1(key ++ GUID)).  SHA-1 and base64 are assumed
+// (extern.spec); proved here: what is hashed, in which order, that the digest
+// of exactly that input is what gets encoded, and the length of the result.
+// The function is straight-line: Write#1, Write#2, Sum#1 are its only calls
+// on the hash, in this order.
 //@ func computeAcceptKey
-//@ trusted
 //@ pure
-//@ ensures len(result) == 28
+//@ tags C12 C14
+//@ bind h after call:New#1
+//@ bind sum after call:Sum#1
+//@ bind enc after call:EncodeToString#1
+//@ assert at call:Write#1[C12+C14.digest]: arg0 == h && len(arg1) == len(challengeKey) && forall(i, 0, len(challengeKey), arg1[i] == challengeKey[i])
+//@ assert at call:Write#2[C12+C14.digest]: arg0 == h && same(arg1, keyGUID)
+//@ assert at call:Sum#1[C12+C14.digest]: arg0 == h && len(arg1) == 0
+//@ assert at call:EncodeToString#1[C12+C14.digest]: same(arg1, sum)
+//@ assert at return#1[C12+C14.digest]: same(result, enc)
+//@ ensures[C12+C14.acceptlen] len(result) == 28
 
 //@ func (*Upgrader).returnError
 //@ tags C12
@@ -994,6 +1007,7 @@ package websocket
 //@ assert at return#11[C16.cleanup]: hconn.g_closed && conn == nil && err != nil
 //@ assert at return#12[C16.cleanup]: hconn.g_closed && conn == nil && err != nil
 //@ assert at return#13[C16.open]: !hconn.g_closed && !conn.conn.g_wdl && (conn.conn == hconn || (typeIs(conn.conn, "*brNetConn") && asType(conn.conn, "*brNetConn").Conn == hconn))
+//@ assert at return#13[C15.compfn]: imp(conn.newCompressionWriter != nil, same(conn.newCompressionWriter, compressNoContextTakeover) && same(conn.newDecompressionReader, decompressNoContextTakeover))
 //@ assert at return#13[C15.server]: iff(conn.newCompressionWriter != nil, compress) && iff(conn.newDecompressionReader != nil, compress) && imp(compress, u.EnableCompression) && conn.isServer
 //@ loop 6 invariant 0 <= i && i <= len(v)
 //@ loop 3 invariant 0 <= i && i <= len(c.subprotocol)
@@ -1107,6 +1121,7 @@ package websocket
 //@ assert at return#$[C15.bothparams]: imp(conn.newCompressionWriter != nil, 0 <= rangeindex + 1 && rangeindex + 1 < len(exts) && streq(exts[rangeindex + 1][""], "permessage-deflate") && \
 //@     haskey(exts[rangeindex + 1], "server_no_context_takeover") && haskey(exts[rangeindex + 1], "client_no_context_takeover"))
 //@ assert at return#$[C15.negotiated]: imp(conn.newCompressionWriter == nil, forall(k, 0, len(exts), !streq(exts[k][""], "permessage-deflate")))
+//@ assert at return#$[C15.compfn]: imp(conn.newCompressionWriter != nil, same(conn.newCompressionWriter, compressNoContextTakeover) && same(conn.newDecompressionReader, decompressNoContextTakeover))
 //@ assert at return#$[C15.client]: iff(conn.newCompressionWriter != nil, conn.newDecompressionReader != nil) && !conn.isServer
 //@ assert at return#9[C16.cleanup]: nc.g_closed && conn == nil
 //@ assert at return#10[C16.cleanup]: nc.g_closed && conn == nil
@@ -1150,6 +1165,7 @@ package websocket
 //@ requires 0 - 2 <= level && level <= 9
 //@ assert at call:NewWriter#1[C02+C15.compwire]: typeIs(arg0, "*truncWriter") && asType(arg0, "*truncWriter").w == w && asType(arg0, "*truncWriter").n == 0 && arg1 == level
 //@ assert at call:Reset#1[C02+C15.compwire]: typeIs(arg1, "*truncWriter") && asType(arg1, "*truncWriter").w == w && asType(arg1, "*truncWriter").n == 0
+//@ ensures[C02+C15.fieldcontract] result != nil && !typeIs(result, "*messageWriter")
 //@ ensures[C02+C15.compwire] typeIs(result, "*flateWriteWrapper") && asType(result, "*flateWriteWrapper").tw.w == w && asType(result, "*flateWriteWrapper").tw.n == 0 && asType(result, "*flateWriteWrapper").fw != nil
 
 // ---------------------------------------------------------------------------
@@ -1169,6 +1185,7 @@ package websocket
 //@ ghost before call:WriteMessage#1: arg0.g_app :| forall(i, 0, len(pm.data), pm.data[i] == arg0.g_app[arg0.g_acc + i])
 //@ assert at call:WriteMessage#1[C19.conn]: arg0.isServer == key.isServer && arg0.compressionLevel == key.compressionLevel && iff(arg0.newCompressionWriter != nil, key.compress) && \
 //@     arg0.enableWriteCompression && arg1 == pm.messageType && same(arg2, pm.data) && arg0.writer == nil && arg0.writePool == nil
+//@ assert at call:WriteMessage#1[C19.compfn]: imp(arg0.newCompressionWriter != nil, same(arg0.newCompressionWriter, compressNoContextTakeover))
 
 //@ func (*Conn).WritePreparedMessage
 //@ tags C09 C10 C19
@@ -1380,6 +1397,7 @@ package websocket
 //@ assert at call:NewReader#1[C03.tail]: len(arg0) == 9 && arg0[0] == 0 && arg0[1] == 0 && arg0[2] == 255 && arg0[3] == 255 && arg0[4] == 1 && arg0[5] == 0 && arg0[6] == 0 && arg0[7] == 255 && arg0[8] == 255
 //@ assert at call:MultiReader#1[C03.tail]: len(arg0) == 2 && arg0[0] == r
 //@ ensures[C03.tail] typeIs(result, "*flateReadWrapper")
+//@ ensures[C03+C15.fieldcontract] result != nil
 
 // The deflate stream's final sync marker (00 00 ff ff) is what truncWriter
 // still holds when the message is closed; it is checked and never forwarded.
@@ -1388,6 +1406,8 @@ package websocket
 //@ nosafety
 //@ assert at call:Close#1[C02.tail.check]: w.tw.p[0] == 0 && w.tw.p[1] == 0 && w.tw.p[2] == 255 && w.tw.p[3] == 255 && arg0 == w.tw.w
 //@ ensures[C02.tail.check] w.fw == nil
+//@ assert at return#1[C10.writeclosed]: old(w.fw) == nil && result != nil
+//@ assert at call:Flush#1[C10.writeclosed]: arg0 == old(w.fw) && arg0 != nil
 //@ bind e1 after call:Flush#1
 //@ bind e2 after call:Close#1
 //@ assert at return#3[C02+C10.closeerr]: e1 != nil && result == e1
